@@ -81,6 +81,30 @@ def replay(rec: Dict[str, Any]) -> List[Tuple[str, Dict[str, Any], str]]:
     return []
 
 
+def replay_random_values(rec: Dict[str, Any]) -> List[Tuple[str, Dict[str, Any], str]]:
+    """A random (document, query with extension constructs) pair drawn by MC_PathRandom: values compared."""
+    import jsonpath
+
+    exp = [canon(v) for v in rec["vals"]]
+    for si, t in enumerate(rec["texts"]):
+        text = untext(t)
+        doc = untag(rec["doc"])
+        ctx = untag(rec["ctx"])
+        try:
+            obs_vals = jsonpath.findall(text, doc, filter_context=ctx)
+            disc = "" if [canon(tag(v)) for v in obs_vals] == exp else "different-values"
+            if not disc and canon(tag(doc)) != canon(rec["doc"]):
+                disc = "document-modified"
+        except BaseException as e:  # noqa: BLE001
+            disc = ("compile-" if isinstance(e, jsonpath.JSONPathSyntaxError) else "") + f"raised-{exc_family(e)}"
+            obs_vals = []
+        if disc:
+            return [(f"random:{disc}|style{si}|{'+'.join(sorted(expr_features(rec['q'])))}",
+                     {"query": text, "standard_spelling": untext(rec["texts"][0]), "doc": show(rec["doc"]), "filter_context": show(rec["ctx"]),
+                      "expected_values": [show(v) for v in rec["vals"]], "observed_values": obs_vals, "tagged": rec}, disc)]
+    return []
+
+
 def load(chk: Check) -> List[Dict[str, Any]]:
     recs: List[Dict[str, Any]] = []
     for u in UNIVERSES:
@@ -106,6 +130,16 @@ def run(chk: Check, tier: str, seed: int) -> None:
             chk.nontrivial.add(json.dumps(rec["q"], sort_keys=True))
         for sig, case, what in res:
             chk.violation(sig, case, what)
+    from ..pathcommon import random_cases
+
+    rnd = random_cases(chk, filters=True, num=6000 if tier == "quick" else 200000, seed=seed, depth=3, segs=3, ext=True)
+    for rec, res in zip(rnd, core.pmap(replay_random_values, rnd)):
+        chk.traces += 2
+        if rec["res"]:
+            chk.nontrivial.add(json.dumps((rec["q"], rec["doc"]), sort_keys=True))
+        for sig, case, what in res:
+            chk.violation(sig, case, what)
+    chk.extra["random_document_query_pairs_with_extensions"] = len(rnd)
     for rec in recs[3:5] + recs[40:42] + recs[-2:]:
         chk.sample({"universe": rec["universe"], "spellings": [untext(t) for t in rec["texts"][:3]]})
     chk.exhaustive = True
@@ -118,7 +152,8 @@ def run(chk: Check, tier: str, seed: int) -> None:
 def replay_file(case: Dict[str, Any]) -> int:
     chk = Check("C13", "quick", 0)
     load(chk)
-    res = replay(case["case"]["tagged"])
+    t = case["case"]["tagged"]
+    res = replay_random_values(t) if "vals" in t else replay(t)
     for sig, c, what in res:
         print("DIVERGENCE", sig, c["query"], c["expected_values"], c["observed_values"])
     return 1 if res else 0
